@@ -98,7 +98,9 @@ func generate(ld *Loaded, cs *Contracts, fc *FuncContract) (res *FuncResult) {
 	for _, gl := range fc.GhostLocals {
 		env := ex.specEnv(top, st, st)
 		v := env.eval(gl.Init)
-		if sc, ok := v.V.(Sc); ok {
+		if v.Lit != nil {
+			st.vars["gl!"+gl.Name] = bigLit(v.Lit)
+		} else if sc, ok := v.V.(Sc); ok {
 			st.vars["gl!"+gl.Name] = sc.T
 		} else {
 			cx.unsup("ghostlocal %s: initial value is not a scalar", gl.Name)
